@@ -353,6 +353,25 @@ def w_foreign_retry_empty_dcid():
            "FAILS one foreign UDP datagram (unrelated addresses, long header, DCID length 0, Retry type) cuts a bystander connection's export from %d to %d bytes" % (len(base), len(out2 or b""))
 
 
+def w_hello_again_after_key_updates():
+    import collections
+    impl, tlsgen, table, _ = env()
+    from lib import quicgen
+    from ref import capgen, quic_ref as Q
+    rng = random.Random(5)
+    s = quicgen.make(rng, collections.Counter(), suite=0x1301, offered="only", early=False, retry=False, client_cid_len=8, server_cid_len=8, dcid0_len=8, napp=2, key_updates=0)
+    c = s.conn
+    for gen in (1, 2):                               # two key updates started by the client, followed by the server
+        c.phase[False] = gen
+        c.datagram(False, [("1rtt", [Q.f_stream(0, b"client gen %d" % gen, offset=None)], {})])
+        c.phase[True] = gen
+        c.datagram(True, [("1rtt", [Q.f_stream(3, b"server gen %d" % gen, offset=None)], {})])
+    # one crafted datagram: a server Initial (its keys are public) carrying a second ServerHello at the stream's next CRYPTO offset
+    c.datagram(True, [("initial", c.crypto_frames("initial", True, c.server_hello()), {})])
+    c.datagram(False, [("1rtt", [Q.f_stream(0, b"after", offset=None)], {})])
+    return expect_no_crash(impl, capgen.to_pcapng(quicgen.packets(s, rng)), s.keylog)
+
+
 def w_short_cid_direction():
     impl, *_ = env()
     from ref import readback
@@ -407,6 +426,7 @@ W = {  # name: (property, commit, tag, function, one-line description)
     "quic-short-cid-direction": ("C02", "20fd46b", "quic-short-cid-direction", w_short_cid_direction, "1-byte connection IDs: datagrams matched the peer's ID by chance and were taken for the opposite direction"),
     "quic-short-cid-other-connection": ("C04", "b38f70d", "quic-short-cid-cross", w_short_cid_other_connection, "a datagram matched the short connection ID of another connection's session and was lost for its own"),
     "foreign-retry-empty-dcid": ("C03", "994a2fd", "quic-empty-dcid-long-header", w_foreign_retry_empty_dcid, "a stray long-header datagram with DCID length 0 was handed to a bystander session with a zero-length connection ID (a Retry wiped its keys)"),
+    "quic-hello-again-after-key-updates": ("C03", "2cf39e4", "quic-decryptor-selection-outside-try", w_hello_again_after_key_updates, "one crafted Initial datagram with a second ServerHello after two key updates: the re-created Application decryptor list was indexed with the stale key epoch and the IndexError aborted the run"),
     "legacy-nanosecond-pcap": ("C12", "7467fb4", "legacy-ns", w_legacy_nano, "legacy pcap with nanosecond magic: TypeError in the writer"),
 }
 
